@@ -31,10 +31,16 @@ func (l Lib) order() binary.ByteOrder {
 }
 
 func (l Lib) opts() []wkbcommon.WKBOption {
+	// as an application with a configuration setting does it: one call site,
+	// the mode in a variable (the default mode is also passed explicitly for
+	// every second byte order, otherwise left out)
+	mode := wkbcommon.EmptyPointHandlingError
 	if l.C.NaN {
-		return []wkbcommon.WKBOption{wkbcommon.WKBOptionEmptyPointHandling(wkbcommon.EmptyPointHandlingNaN)}
+		mode = wkbcommon.EmptyPointHandlingNaN
+	} else if !l.C.BE {
+		return nil
 	}
-	return nil
+	return []wkbcommon.WKBOption{wkbcommon.WKBOptionEmptyPointHandling(mode)}
 }
 
 // Write encodes g to w.
